@@ -45,6 +45,69 @@ def check_bath(job):
     return out
 
 
+def dissipative_job(job):
+    """Numerical (metamorphic, not decided by the specification): a system with Lindblad terms - non-Hermitian and
+    non-normal operators, time dependent rates - simulated as given and as (V H V+, V A V+, V O V+, V rho0 V+) with a
+    genuinely complex V must give V rho(t) V+ (TEMPO, PT-TEMPO + compute_dynamics, bath-free, mean field)."""
+    import oqupy
+    method, d, kind, seed = job
+    r = probes.rng_for(seed, "c05-diss", method, d, kind)
+    v = probes.haar_unitary(d, seed, "diss", d) if kind == "haar" else probes.structured_unitary(d, "fourier")
+
+    def herm():
+        a = r.normal(size=(d, d)) + 1j * r.normal(size=(d, d))
+        return (a + a.conj().T) / 2
+    h0, h1 = herm() * 0.7, herm() * 0.4
+    ops = [r.normal(size=(d, d)) + 1j * r.normal(size=(d, d)), np.diag(np.arange(d, dtype=complex)), np.eye(d, k=1, dtype=complex)]
+    rates = [0.2, 0.35, 0.5]
+    o = np.diag(np.linspace(1.0, -1.0, d))
+    rho0 = probes.generic_rho(d, seed)
+    dt, n = 0.1, 4
+    corr = oqupy.PowerLawSD(alpha=0.3, zeta=1.0, cutoff=3.0, cutoff_type="exponential", temperature=0.4)
+    params = oqupy.TempoParameters(dt=dt, epsrel=1e-10, dkmax=3)
+
+    def run_in(rot):
+        c = lambda m: rot @ m @ rot.conj().T
+        if method == "mf":
+            fs = oqupy.TimeDependentSystemWithField(
+                lambda t, a: c(h0 + np.cos(t) * h1) + 0.2 * a.real * c(o),
+                gammas=[lambda t, g=g: g * (1 + 0.5 * np.sin(t)) for g in rates],
+                lindblad_operators=[lambda t, x=x: c(x) for x in ops])
+            mfs = oqupy.MeanFieldSystem([fs], field_eom=lambda t, st, a: -0.4j * a - 0.3j * np.trace(st[0] @ c(ops[2])))
+            dyn = oqupy.MeanFieldTempo(mfs, [oqupy.Bath(c(o), corr)], params, [c(rho0)], 0.2 + 0.1j, 0.0).compute(
+                n * dt + dt / 4, progress_type="silent")
+            return np.array(dyn.system_dynamics[0].states), np.array(dyn.fields)
+        if kind == "haar":
+            system = oqupy.System(c(h0), gammas=rates, lindblad_operators=[c(x) for x in ops])
+        else:
+            system = oqupy.TimeDependentSystem(lambda t: c(h0 + np.cos(t) * h1),
+                                               gammas=[lambda t, g=g: g * (1 + 0.5 * np.sin(t)) for g in rates],
+                                               lindblad_operators=[lambda t, x=x: c(x) for x in ops])
+        if method == "tempo":
+            return np.array(oqupy.Tempo(system, oqupy.Bath(c(o), corr), params, c(rho0), 0.0).compute(
+                n * dt + dt / 4, progress_type="silent").states), None
+        if method == "pt":
+            pt = oqupy.PtTempo(oqupy.Bath(c(o), corr), 0.0, n * dt + dt / 4, params).get_process_tensor(progress_type="silent")
+            return np.array(oqupy.compute_dynamics(system, initial_state=c(rho0), process_tensor=pt,
+                                                   progress_type="silent").states), None
+        return np.array(oqupy.compute_dynamics(system, initial_state=c(rho0), dt=dt, num_steps=n,
+                                               progress_type="silent").states), None
+    try:
+        s0, f0 = run_in(np.eye(d, dtype=complex))
+        s1, f1 = run_in(v)
+    except Exception as ex:  # pylint: disable=broad-except
+        import traceback
+        return [{"what": "exception", "detail": "%s: %s" % (type(ex).__name__, str(ex)[:160]), "tb": traceback.format_exc()[-300:]}]
+    back = np.array([v.conj().T @ x @ v for x in s1])
+    err = float(np.max(np.abs(back - s0)))
+    out = []
+    if err > 2e-7:
+        out.append({"what": "not-covariant", "err": err})
+    if f0 is not None and np.max(np.abs(f0 - f1)) > 2e-7:
+        out.append({"what": "field-not-invariant", "err": float(np.max(np.abs(f0 - f1)))})
+    return out
+
+
 def run(ctx):
     quick = ctx.tier == "quick"
     space = "UNION {[1..d -> (-1)..2] : d \\in 2..3}" if quick else "UNION {[1..d -> (-1)..2] : d \\in 2..4}"
@@ -85,11 +148,19 @@ def run(ctx):
         for mm in res_["mismatch"]:
             key = "C05:%s:%s" % (job["variant"].get("method", job["case"]["alg"]), mm["what"])
             ctx.violation(key, "case %s: %s" % (cid, mm), {"case": job["case"], "variant": job["variant"]})
+    djobs = [(m, d, k, ctx.seed) for m in ("tempo", "pt", "free", "mf") for d in ((2, 3) if quick else (2, 3, 4))
+             for k in ("haar", "fourier")]
+    for j, mm in zip(djobs, core.pmap(dissipative_job, djobs)):
+        ctx.case({"check": "dissipative system in a complex basis (numerical)", "method": j[0], "d": j[1], "V": j[2]}, nontrivial=True)
+        for x in mm:
+            ctx.violation("C05:dissipative:%s:%s" % (j[0], x["what"]), "%s: %s" % (j[:3], x), {"dissipative": list(j)})
     ctx.rule = ("(a) eigenvalue tuples over -1..2, d=2..3 (quick) / 2..5 (thorough) x V in {perm, fourier, real, haar}: "
                 "Bath contract; (b) Influence.tla behaviours x V replayed through Tempo / PtTempo+compute_dynamics / "
                 "MeanFieldTempo and rotated back; non-trivial (a) = repeated eigenvalue, (b) all")
     ctx.exhaustive = True
-    ctx.assumptions += ["Haar unitaries drawn from VERIF_SEED; tolerance 1e-9"]
+    ctx.assumptions += ["Haar unitaries drawn from VERIF_SEED; tolerance 1e-9",
+                        "systems with Lindblad terms (non-normal operators, time-dependent rates): metamorphic numerical comparison of "
+                        "the rotated with the unrotated run (2e-7 at epsrel 1e-10)"]
 
 
 def replay(ctx, rep):
@@ -100,6 +171,10 @@ def replay(ctx, rep):
         ctx.case(eng.case_id(c["case"], c["variant"]))
         for mm in res["mismatch"]:
             ctx.violation("C05:replay:" + mm["what"], str(mm), c)
+    elif "dissipative" in c:
+        ctx.case(c)
+        for x in dissipative_job(tuple(c["dissipative"])):
+            ctx.violation("C05:replay:" + x["what"], str(x), c)
     else:
         for m in check_bath((c["o"], c["rot"], rep.get("seed", 0))):
             ctx.violation("C05:bath:" + m["what"], str(m), c)
